@@ -1,9 +1,348 @@
+import RsMatterVerif.Model.Subs
 import Driver.Util
-/-! Driver for C13: not built yet. -/
-namespace Driver.C13
+/-! Driver for C13: replays subscription-table histories on `Model/Subs` (output compared with the
+real `Subscriptions` table, field by field) and evaluates the property's specification on the
+*implementation's* outputs: a set-based account of what every live subscriber is still owed.
 
-def run : IO UInt32 := do
-  IO.eprintln "C13: driver not built yet"
-  return 2
+Ops (`now` in ticks, `hz` ticks per second in the case header `case <id> subs <N> <hz>`):
+  `chg e c a` | `chgw e|* c|*` | `add now fab peer min max evwm` | `rep now evwm` | `q id` |
+  `fin id keep|retry|drop` | `purge` | `rm fab peer` | `rmexp now` | `nra evwm`
+Output of every op: `<result> | <nextSubId> <count> <nextChangeId> <cancelled> | <reporting> |
+<table> | <entries> | <contexts>`.
+-/
+namespace Driver.C13
+open Subs
+
+/-! ## rendering of the model state (must equal the harness' dump of the real state) -/
+
+def rSub (s : Sub) : String :=
+  s!"{s.id},{s.fab},{s.peer},{s.minInt},{s.maxInt},{s.reportedAt},{s.retryAt},{s.fail},{s.seenAttr},{s.seenEv}"
+
+def rEntry (e : Entry) : String := s!"{e.ep}.{e.cl}.{e.attr}@{e.id}"
+
+def rCtx (c : Ctx) : String :=
+  s!"{c.sub.id},{c.nextAttr},{c.nextEv},{c.nextReportedAt},{c.nextRetryAt},{c.nextFail}"
+
+def joinOr (xs : List String) : String := if xs.isEmpty then "-" else ";".intercalate xs
+
+def insertSorted (c : Ctx) : List Ctx → List Ctx
+  | [] => [c]
+  | x :: xs => if c.sub.id ≤ x.sub.id then c :: x :: xs else x :: insertSorted c xs
+
+def sortCtxs (cs : List Ctx) : List Ctx := cs.foldl (fun acc c => insertSorted c acc) []
+
+def rState (s : State) : String :=
+  let rep := match s.reporting with | some x => rSub x | none => "-"
+  s!"{s.nextSubId} {s.count} {s.changed.nextId} {if s.cancelled then 1 else 0} | {rep} | " ++
+  s!"{joinOr (s.subs.map rSub)} | {joinOr (s.changed.entries.map rEntry)} | {joinOr ((sortCtxs s.ctxs).map rCtx)}"
+
+/-- the probed probes of concrete attribute paths, endpoint-major -/
+def probes : List (Nat × Nat × Nat) :=
+  [0, 1, 2].flatMap fun e => [1, 2, 3].flatMap fun c => [0, 1, 2, 3].map fun a => (e, c, a)
+
+def bits (f : Nat × Nat × Nat → Bool) : String :=
+  String.ofList (probes.map (fun u => if f u then '1' else '0'))
+
+/-! ## the specification side: what each live subscriber is owed (independent of the model) -/
+
+structure Flight where
+  now : Nat
+  evwm : Nat
+  priming : Bool
+
+structure OSub where
+  id : Nat
+  fab : Nat
+  peer : Nat
+  minInt : Nat
+  maxInt : Nat
+  /-- changes recorded since the data of the last delivered report (or of the priming) was read -/
+  owed : List Entry := []
+  /-- changes recorded after the begin of the report that is in flight -/
+  afterBegin : List Entry := []
+  /-- begin instant of the last delivered report -/
+  lastSuccess : Option Nat := none
+  ackedEv : Nat := 0
+  flight : Option Flight := none
+  /-- a removal matched it while it was being reported on: it ends when the report ends -/
+  mustEnd : Bool := false
+  /-- a removal request named it while it was priming (invisible to the table): nothing is demanded -/
+  unknown : Bool := false
+
+structure ISub where
+  id : Nat
+  reportedAt : Nat
+  retryAt : Nat
+
+structure St where
+  m : State := State.new 1000000 1
+  o : List OSub := []
+  dead : Bool := false
+
+def pathEntry (u : Nat × Nat × Nat) : Entry := { ep := u.1, cl := u.2.1, attr := u.2.2, id := 0 }
+
+/-- parse the table section of the implementation's dump -/
+def parseISubs (sec : String) : List ISub :=
+  if sec = "-" then [] else
+  (sec.splitOn ";").filterMap fun item =>
+    match (item.splitOn ",").map String.toNat? with
+    | [some id, _, _, _, _, some ra, some rt, _, _, _] => some { id := id, reportedAt := ra, retryAt := rt }
+    | _ => none
+
+def sections (out : String) : List String := (out.splitOn " | ").map (fun s => s.trimAscii.toString)
+
+def updateO (os : List OSub) (id : Nat) (f : OSub → OSub) : List OSub :=
+  os.map (fun o => if o.id = id then f o else o)
+
+/-- the earliest instant the property lets a report go out (minimum interval after the last
+delivered report; the implementation's own retry gate is accepted as given) -/
+def allowedAt (hz : Nat) (o : OSub) (i : ISub) : Nat :=
+  let gate := match o.lastSuccess with | some t => t + o.minInt * hz | none => 0
+  max gate i.retryAt
+
+def pendingO (o : OSub) (evwm : Nat) : Bool := !o.owed.isEmpty || decide (evwm > o.ackedEv)
+
+/-- every live, settled subscription of the specification must be in the implementation's table -/
+def checkPresent (os : List OSub) (itab : List ISub) : Option String :=
+  match os.find? (fun o => o.flight.isNone && !o.unknown && !(itab.any (fun i => i.id = o.id))) with
+  | some o => some s!"live subscription {o.id} is no longer in the table"
+  | none => none
+
+def firstSome : List (Option String) → Option String
+  | [] => none
+  | some x :: _ => some x
+  | none :: r => firstSome r
+
+/-- Oracle for one op given the implementation's output. Returns the new oracle state and a violation. -/
+def oracle (hz : Nat) (os : List OSub) (ws : List String) (out : String) : List OSub × Option String :=
+  let secs := sections out
+  let res := words (secs.getD 0 "")
+  let itab := parseISubs (secs.getD 3 "-")
+  let find (id : Nat) := os.find? (fun o => o.id = id)
+  match ws with
+  | ["chg", e, c, a] =>
+    match e.toNat?, c.toNat?, a.toNat? with
+    | some e, some c, some a =>
+      let p : Entry := { ep := e, cl := c, attr := a, id := 0 }
+      let os' := os.map fun o => { o with owed := p :: o.owed, afterBegin := if o.flight.isSome then p :: o.afterBegin else o.afterBegin }
+      (os', checkPresent os' itab)
+    | _, _, _ => (os, none)
+  | ["chgw", e, c] =>
+    let p : Entry := { ep := (e.toNat?).getD WEP, cl := if e = "*" then WCL else (c.toNat?).getD WCL, attr := WAT, id := 0 }
+    let os' := os.map fun o => { o with owed := p :: o.owed, afterBegin := if o.flight.isSome then p :: o.afterBegin else o.afterBegin }
+    (os', checkPresent os' itab)
+  | ["add", now, fab, peer, mn, mx, ev] =>
+    match res, now.toNat?, fab.toNat?, peer.toNat?, mn.toNat?, mx.toNat?, ev.toNat? with
+    | ["some", ids], some now, some fab, some peer, some mn, some mx, some ev =>
+      match ids.toNat? with
+      | some id =>
+        let o : OSub := { id := id, fab := fab, peer := peer, minInt := mn, maxInt := mx,
+                          flight := some { now := now, evwm := ev, priming := true } }
+        (os ++ [o], checkPresent os itab)
+      | none => (os, none)
+    | _, _, _, _, _, _, _ => (os, checkPresent os itab)
+  | ["rep", now, ev] =>
+    match now.toNat?, ev.toNat? with
+    | some now, some ev =>
+      match res with
+      | ["some", ids] =>
+        match ids.toNat? with
+        | none => (os, none)
+        | some id =>
+          match find id with
+          | none => (os, some s!"report begun for subscription {id} which is not live")
+          | some o =>
+            let early := match o.lastSuccess with
+              | some t => decide (t + o.minInt * hz ≤ IMAX) && decide (now < t + o.minInt * hz)
+              | none => false
+            let os' := updateO os id fun o => { o with flight := some { now := now, evwm := ev, priming := false }, afterBegin := [] }
+            if o.flight.isSome then (os', some s!"report begun for subscription {id} which is already in flight")
+            else if early then (os', some s!"report to {id} at {now} before the minimum interval after {o.lastSuccess.getD 0}")
+            else (os', none)
+      | ["none"] =>
+        -- nothing reportable: no settled live subscriber may be owed something it is allowed to get
+        let bad := os.filterMap fun o =>
+          if o.flight.isSome || o.unknown then none else
+          match itab.find? (fun i => i.id = o.id) with
+          | none => some s!"live subscription {o.id} is no longer in the table"
+          | some i =>
+            if decide (allowedAt hz o i ≤ now) then
+              if pendingO o ev then some s!"subscription {o.id} is owed a change/event and the minimum interval allows a report at {now}, none is started"
+              else match o.lastSuccess with
+                | some t => if decide (t + o.maxInt * hz ≤ now) then some s!"no liveness report for {o.id} although the maximum interval has elapsed at {now}" else none
+                | none => some s!"unprimed subscription {o.id} is not reported"
+            else none
+        (os, bad.head?)
+      | _ => (os, none)
+    | _, _ => (os, none)
+  | ["q", ids] =>
+    match ids.toNat?, res with
+    | some id, [b, _, sev] =>
+      match find id with
+      | none => (os, none)
+      | some o =>
+        let bl := b.toList
+        let lost := (probes.zip bl).find? fun (u, ch) =>
+          ch = '0' && o.owed.any (fun p => covers p (pathEntry u))
+        let evBad := match sev.toNat? with
+          | some v => decide (v > o.ackedEv)
+          | none => false
+        match lost with
+        | some (u, _) => (os, some s!"change of {u.1}.{u.2.1}.{u.2.2} owed to subscription {id} is not in its report (lost)")
+        | none => if evBad then (os, some s!"events up to {sev} are skipped for subscription {id}, only {o.ackedEv} were delivered") else (os, none)
+    | _, _ => (os, none)
+  | ["fin", ids, mode] =>
+    match ids.toNat? with
+    | none => (os, none)
+    | some id =>
+      match find id, res with
+      | some o, ["done"] =>
+        match o.flight with
+        | none => (os, none)
+        | some fl =>
+          let os' :=
+            if mode = "drop" || o.mustEnd then os.filter (fun x => x.id ≠ id)
+            else if mode = "keep" then
+              updateO os id fun o => { o with owed := o.afterBegin, afterBegin := [], lastSuccess := some fl.now, ackedEv := fl.evwm, flight := none }
+            else updateO os id fun o => { o with afterBegin := [], flight := none }
+          let gone := if (mode = "drop" || o.mustEnd) && itab.any (fun i => i.id = id) then some s!"ended subscription {id} is back in the table" else none
+          (os', firstSome [gone, checkPresent os' itab])
+      | _, _ => (os, none)
+  | ["purge"] => (os, checkPresent os itab)
+  | ["rm", fab, peer] =>
+    match fab.toNat?, peer.toNat? with
+    | some fab, some peer =>
+      let hit (o : OSub) : Bool := o.fab = fab && o.peer = peer
+      let os1 := os.filter fun o => !(hit o && o.flight.isNone)
+      let os2 := os1.map fun o =>
+        if hit o then
+          match o.flight with
+          | some fl => if fl.priming then { o with unknown := true } else { o with mustEnd := true }
+          | none => o
+        else o
+      let still := os.find? fun o => hit o && o.flight.isNone && !o.unknown && itab.any (fun i => i.id = o.id)
+      match still with
+      | some o => (os2, some s!"removed subscription {o.id} is still in the table")
+      | none => (os2, checkPresent os2 itab)
+    | _, _ => (os, none)
+  | ["rmexp", now] =>
+    match now.toNat? with
+    | none => (os, none)
+    | some now =>
+      let expired (o : OSub) : Bool := match o.lastSuccess with
+        | some t => decide (t + o.maxInt * hz ≤ IMAX) && decide (t + o.maxInt * hz ≤ now)
+        | none => false
+      let os1 := os.filter fun o => !(expired o && o.flight.isNone)
+      let os2 := os1.map fun o =>
+        if expired o then
+          match o.flight with
+          | some fl => if fl.priming then o else { o with mustEnd := true }
+          | none => o
+        else o
+      let still := os.find? fun o => expired o && o.flight.isNone && !o.unknown && itab.any (fun i => i.id = o.id)
+      match still with
+      | some o => (os2, some s!"subscription {o.id} is still alive at {now}, more than one maximum interval after its last delivered report")
+      | none => (os2, checkPresent os2 itab)
+  | ["nra", ev] =>
+    match ev.toNat?, res with
+    | some ev, [ts] =>
+      match ts.toNat? with
+      | none => (os, none)
+      | some t =>
+        let bad := os.filterMap fun o =>
+          if o.flight.isSome || o.unknown then none else
+          match itab.find? (fun i => i.id = o.id) with
+          | none => none
+          | some i =>
+            let al := allowedAt hz o i
+            if pendingO o ev then
+              if decide (t > al) then some s!"the reporter sleeps until {t} although subscription {o.id} is owed a report at {al}" else none
+            else match o.lastSuccess with
+              | some ls => if decide (t > max al (ls + o.maxInt * hz)) then some s!"the reporter sleeps until {t}, past the maximum interval of subscription {o.id}" else none
+              | none => if decide (t > al) then some s!"the reporter sleeps until {t} although subscription {o.id} is unprimed" else none
+        (os, firstSome [bad.head?, checkPresent os itab])
+    | _, _ => (os, none)
+  | _ => (os, none)
+
+/-! ## the model side -/
+
+def modelStep (m : State) (ws : List String) : Option (State × String) :=
+  match ws with
+  | ["chg", e, c, a] =>
+    match e.toNat?, c.toNat?, a.toNat? with
+    | some e, some c, some a => some (m.change { ep := e, cl := c, attr := a, id := 0 }, "-")
+    | _, _, _ => none
+  | ["chgw", e, c] =>
+    let p : Entry := { ep := (e.toNat?).getD WEP, cl := if e = "*" then WCL else (c.toNat?).getD WCL, attr := WAT, id := 0 }
+    some (m.change p, "-")
+  | ["add", now, fab, peer, mn, mx, ev] =>
+    match now.toNat?, fab.toNat?, peer.toNat?, mn.toNat?, mx.toNat?, ev.toNat? with
+    | some now, some fab, some peer, some mn, some mx, some ev =>
+      let r := m.add now fab peer mn mx ev
+      some (r.1, match r.2 with | some id => s!"some {id}" | none => "none")
+    | _, _, _, _, _, _ => none
+  | ["rep", now, ev] =>
+    match now.toNat?, ev.toNat? with
+    | some now, some ev =>
+      if m.reporting.isSome then some (m, "busy") else
+      let r := m.report now ev
+      some (r.1, match r.2 with | some id => s!"some {id}" | none => "none")
+    | _, _ => none
+  | ["q", ids] =>
+    match ids.toNat? with
+    | none => none
+    | some id =>
+      match m.ctxs.find? (fun c => c.sub.id == id) with
+      | none => some (m, "noctx")
+      | some c =>
+        let b := bits (fun u => m.shouldReportAttr c u.1 u.2.1 u.2.2)
+        some (m, s!"{b} {if c.shouldSendIfEmpty m.hz then 1 else 0} {c.sub.seenEv}")
+  | ["fin", ids, mode] =>
+    match ids.toNat? with
+    | none => none
+    | some id =>
+      let f := if mode = "keep" then Fin.keep else if mode = "retry" then Fin.retry else Fin.drop
+      let r := m.fin id f
+      some (r.1, if r.2 then "done" else "noctx")
+  | ["purge"] => some (m.purge, "-")
+  | ["rm", fab, peer] =>
+    match fab.toNat?, peer.toNat? with
+    | some fab, some peer =>
+      let r := m.remove (fun s => s.fab == fab && s.peer == peer)
+      some (r.1, toString r.2)
+    | _, _ => none
+  | ["rmexp", now] =>
+    match now.toNat? with
+    | some now =>
+      let r := m.remove (fun s => s.isExpired m.hz now)
+      some (r.1, toString r.2)
+    | none => none
+  | ["nra", ev] =>
+    match ev.toNat? with
+    | some ev => some (m, toString (m.nextReportAt ev))
+    | none => none
+  | _ => none
+
+def step (st : St) (line : String) : St × String :=
+  let (op, out) := splitArrow line
+  match words op with
+  | "case" :: _ :: _ :: ns :: hzs :: _ =>
+    match ns.toNat?, hzs.toNat? with
+    | some n, some hz => ({ m := State.new hz n }, "case")
+    | _, _ => ({}, "BAD case header")
+  | ws =>
+    if st.dead then (st, "ok") else
+    if (words out).head? = some "panic" then ({ st with dead := true }, "ORA the implementation panicked") else
+    match modelStep st.m ws with
+    | none => (st, "BAD op")
+    | some (m', mres) =>
+      let mout := s!"{mres} | {rState m'}"
+      let (o', viol) := oracle st.m.hz st.o ws out
+      let st' := { st with m := m', o := o' }
+      match viol with
+      | some why => (st', s!"ORA {why}")
+      | none => if mout = out then (st', "ok") else (st', s!"DIS {mout}")
+
+def run : IO UInt32 := Driver.runLoop ({} : St) step
 
 end Driver.C13
